@@ -121,3 +121,134 @@ Proof.
   split; [apply RP_reset; [reflexivity|apply RA_pat, RP_leaf; reflexivity]|].
   split; [vm_compute; reflexivity|]. split; vm_compute; reflexivity.
 Qed.
+
+(* RE-CONFIGURATION OF A DETERMINISTIC PATTERN AFTER CONSTRUCTION: PRef.set_pattern(q) (core.py: `self.pattern = pattern`).
+   Whatever was done to the PRef before, once a pattern q of the fragment has been installed, reset() after ANY further
+   k calls of next() gives what reset() gives on PRef(q) as installed - for a new q that is the newly constructed
+   PRef(q) itself (instance of C04_reset_any_history: the re-configuration is the start of a new history). *)
+Definition set_pattern (p : pat) (q : pat) : pat := match p with PRef _ => PRef (AP q) | _ => p end.
+Theorem C04_reset_after_set_pattern : forall binop LMAX f f' k old q,
+  rpat q -> reset binop LMAX f (run binop LMAX f' k (set_pattern (PRef old) q)) = reset binop LMAX f (PRef (AP q)).
+Proof. intros binop LMAX f f' k old q Hq. cbn [set_pattern]. apply C04_reset_any_history. apply RP_ref, RA_pat, Hq. Qed.
+Print Assumptions C04_reset_after_set_pattern.
+
+Example C04_set_pattern_nonvacuous :
+  let p := run Val.binop 100 30 2 (PRef (AP (seq_ [1; 2; 3] 1))) in
+  let p' := set_pattern p (seq_ [7; 8] 2) in
+  fst (outputs Val.binop 100 30 3 p') = [Yield (VInt 7); Yield (VInt 8); Yield (VInt 7)] /\
+  reset Val.binop 100 30 (run Val.binop 100 30 3 p') = Yield (PRef (AP (seq_ [7; 8] 2))).
+Proof. split; vm_compute; reflexivity. Qed.
+
+(* ------------------------------------------------------------------------------------------------------------
+   SEEDABLE AND CONFIGURABLE CLASSES ("... that a newly constructed, identically seeded instance produces").
+   Model Pat/Seeded.v (lemmas Pat/SeededProofs.v): a class is its constructor (which may draw), __next__ (which may call
+   reset() itself), the reset() and seed() overrides and a configuration method that may be called at any time; the
+   random generator is arbitrary data (R, r_unit, r_below, r_seed), never an axiom.  A history is ANY list over
+   next() / reset() / seed(s) / configuration calls.  [canonical s cs] is the newly constructed instance with seed s
+   on which the configuration calls cs were made; [rewinds cls key kcfg] is the class-level contract (reset() forgets
+   everything but the configuration; the constructor leaves what reset() leaves; seed() on a new object leaves what
+   reset() leaves).  From here on `run`, `Stop`, `op` are those of Pat/Chance.v. *)
+From Isobar Require Import Pat.Chance Pat.Seeded Pat.SeededProofs.
+
+Section Seedable.
+  Variable R : Type.
+  Variable r_unit : R -> Z * R.
+  Variable r_below : Z -> R -> Z * R.
+  Variable r_seed : Z -> R.
+
+  (* after ANY history h - next(), reset(), seed(s), configuration calls in any order and number - on an object built
+     with any throw-away seed s0, reset() leaves exactly (class state, generator, stored seed) the newly constructed
+     instance that has the seed in force and received the configuration calls of h; so every later output is its output *)
+  Theorem C04_reset_is_fresh_configured_instance : forall St Cf (cls : sclass R St Cf) K key kcfg,
+    rewinds R St Cf cls K key kcfg -> forall s0 h,
+    fst (kdo R r_seed cls (kafter R r_seed cls (knew R r_seed cls s0) h) KReset) =
+    canonical R r_seed St Cf cls (seed_of s0 h) (configs_of h).
+  Proof. intros St Cf cls K key kcfg RW. exact (reset_is_fresh R r_seed St Cf cls K key kcfg RW). Qed.
+
+  Theorem C04_reset_outputs_configured : forall St Cf (cls : sclass R St Cf) K key kcfg,
+    rewinds R St Cf cls K key kcfg -> forall s0 h post,
+    krun R r_seed cls (knew R r_seed cls s0) (h ++ KReset :: post) =
+    krun R r_seed cls (knew R r_seed cls s0) h ++
+    krun R r_seed cls (canonical R r_seed St Cf cls (seed_of s0 h) (configs_of h)) post.
+  Proof. intros St Cf cls K key kcfg RW. exact (reset_outputs R r_seed St Cf cls K key kcfg RW). Qed.
+
+  (* P(args)[.configure(..)].seed(s) consumed straight away IS the instance that reset() reproduces after any number
+     of next() / reset() calls - fresh-seeded output = output after reset ... *)
+  Theorem C04_fresh_seeded_is_what_reset_reproduces : forall St Cf (cls : sclass R St Cf) K key kcfg,
+    rewinds R St Cf cls K key kcfg -> forall s0 s cs h, plain Cf h ->
+    let fresh := kafter R r_seed cls (knew R r_seed cls s0) (map KConfig cs ++ [KSeed s]) in
+    fst (kdo R r_seed cls (kafter R r_seed cls fresh h) KReset) = fresh.
+  Proof. intros St Cf cls K key kcfg RW s0 s cs h Hp. exact (seeded_then_reset R r_seed St Cf cls K key kcfg RW s0 s cs h Hp). Qed.
+
+  (* ... = output of another fresh instance with the same seed, whatever their constructors drew *)
+  Theorem C04_seeded_instances_agree : forall St Cf (cls : sclass R St Cf) K key kcfg,
+    rewinds R St Cf cls K key kcfg -> forall s0 s0' s cs ops,
+    krun R r_seed cls (kafter R r_seed cls (knew R r_seed cls s0) (map KConfig cs ++ [KSeed s])) ops =
+    krun R r_seed cls (kafter R r_seed cls (knew R r_seed cls s0') (map KConfig cs ++ [KSeed s])) ops.
+  Proof. intros St Cf cls K key kcfg RW. exact (seeded_instances_agree R r_seed St Cf cls K key kcfg RW). Qed.
+
+  (* the contract holds for: PArpeggiator(notes, RANDOM, loop) - constructor, seed() and reset() all redraw the ordering,
+     a looping one resets itself; *)
+  Theorem C04_arpeggiator_random_rewinds : forall notes loop,
+    rewinds R arp_state unit (arp_random R r_below r_seed notes loop) unit (fun _ => tt) (fun _ k => k).
+  Proof. exact (arp_rewinds R r_below r_seed). Qed.
+
+  (* PRandomImpulseSequence(probability, length) with every(n, "generate" | "explore" | "reset" | a callable | None)
+     called at any time: the schedule (count, action) is the configuration, the schedule COUNTER is rewound; *)
+  Theorem C04_impulse_sequence_every_rewinds : forall prob len,
+    rewinds R imp_state (Z * eaction) (impulse_seq R r_unit r_below r_seed prob len) (Z * eaction) imp_key (fun c _ => c).
+  Proof. exact (impulse_rewinds R r_unit r_below r_seed). Qed.
+
+  (* and every class of Pat/Chance.v (PWhite PBrown PCoin PFlipFlop PSkip PRandomWalk PChoice PSample PShuffle
+     PShuffleInput PSwitchOne PMarkov) *)
+  Theorem C04_chance_classes_rewind : forall St (m : machine R St),
+    rewinds R St unit (of_machine R m) unit (fun _ => tt) (fun _ k => k).
+  Proof. intros St m. exact (machine_rewinds R m). Qed.
+
+  (* read together, for the class the seeded change C04-e is about: whatever was done to a PRandomImpulseSequence,
+     reset() leaves PRandomImpulseSequence(probability, length).seed(last seed) + the every() calls made *)
+  Theorem C04_impulse_sequence_reset : forall prob len s0 h,
+    let cls := impulse_seq R r_unit r_below r_seed prob len in
+    fst (kdo R r_seed cls (kafter R r_seed cls (knew R r_seed cls s0) h) KReset) =
+    canonical R r_seed _ _ cls (seed_of s0 h) (configs_of h).
+  Proof. intros prob len s0 h cls. exact (reset_is_fresh R r_seed _ _ cls _ _ _ (impulse_rewinds R r_unit r_below r_seed prob len) s0 h). Qed.
+
+  (* and for the class C04-f is about: a seeded RANDOM arpeggiator plays, from its first note, the ordering reset() replays *)
+  Theorem C04_arpeggiator_seeded_reset : forall notes loop s0 s h, plain unit h ->
+    let cls := arp_random R r_below r_seed notes loop in
+    let fresh := kafter R r_seed cls (knew R r_seed cls s0) [KSeed s] in
+    fst (kdo R r_seed cls (kafter R r_seed cls fresh h) KReset) = fresh /\
+    forall s0', kafter R r_seed cls (knew R r_seed cls s0') [KSeed s] = fresh.
+  Proof.
+    intros notes loop s0 s h Hp cls fresh. split.
+    - exact (seeded_then_reset R r_seed _ _ cls _ _ _ (arp_rewinds R r_below r_seed notes loop) s0 s [] h Hp).
+    - intro s0'. unfold fresh.
+      change [KSeed s] with (map (@KConfig unit) [] ++ [KSeed s]).
+      rewrite !(seeded_new_is_canonical R r_seed _ _ cls _ _ _ (arp_rewinds R r_below r_seed notes loop)). reflexivity.
+  Qed.
+End Seedable.
+Print Assumptions C04_reset_is_fresh_configured_instance.
+Print Assumptions C04_fresh_seeded_is_what_reset_reproduces.
+Print Assumptions C04_impulse_sequence_reset.
+Print Assumptions C04_arpeggiator_seeded_reset.
+
+(* non-vacuity, on the replay generator of Pat/Chance.v (the generator returns recorded results; seed e = "the
+   results recorded after the e-th seeding"): a RANDOM arpeggiator over [0, 2, 3, 5] whose constructor drew one
+   ordering (epoch 0) and whose seed(1) drew another; two notes, reset(), and the seeded ordering is replayed in full;
+   an impulse sequence with every(3, "generate") configured after seed(1): the fourth next() regenerates, and after
+   two further calls reset() replays  1 0 1 | 1 1 1 *)
+Example C04_seeded_nonvacuous :
+  let eps := [[3; 1; 0]; [1; 2; 0]] in
+  let arp := arp_random replay rp_below (rp_seed eps) [0; 2; 3; 5] false in
+  krun replay (rp_seed eps) arp (knew replay (rp_seed eps) arp 0) [KNext; KNext; KNext; KNext; KNext] =
+    [Out (OZ 3); Out (OZ 0); Out (OZ 2); Out (OZ 5); Chance.Stop] /\
+  krun replay (rp_seed eps) arp (knew replay (rp_seed eps) arp 0) [KSeed 1; KNext; KNext; KReset; KNext; KNext; KNext; KNext; KNext] =
+    [Out (OZ 5); Out (OZ 0); Out (OZ 5); Out (OZ 0); Out (OZ 3); Out (OZ 2); Chance.Stop] /\
+  let eps2 := [[]; [0; 9007199254740991; 0; 9007199254740991; 1; 1; 5; 6; 7; 8; 9; 10; 11]] in
+  let imp := impulse_seq replay rp_unit rp_below (rp_seed eps2) (1 # 2) 4 in
+  krun replay (rp_seed eps2) imp (knew replay (rp_seed eps2) imp 0)
+       [KSeed 1; KConfig (3, AGenerate); KNext; KNext; KNext; KNext; KNext; KNext; KReset; KNext; KNext; KNext; KNext; KNext; KNext] =
+    map (fun z => Out (OZ z)) [1; 0; 1; 1; 1; 1; 1; 0; 1; 1; 1; 1] /\
+  im_eidx (k_st (kafter replay (rp_seed eps2) imp (knew replay (rp_seed eps2) imp 0)
+                        [KSeed 1; KConfig (3, AGenerate); KNext; KNext; KNext; KNext; KNext])) = 2.
+Proof. repeat split; vm_compute; reflexivity. Qed.
